@@ -393,9 +393,15 @@ func (g *Gen) check(prop, tier, outDir string, timeoutMS, seed, par int, verbose
 		for a := range fv.assumedUsed {
 			assumed[a] = true
 		}
+		specBroken := false
+		for _, u := range fv.unsupported {
+			if strings.HasPrefix(u, "spec error") {
+				specBroken = true
+			}
+		}
 		for _, o := range fv.obls {
-			if !contains(o.Props, prop) {
-				continue
+			if !contains(o.Props, prop) || specBroken {
+				continue // a function whose contract no longer resolves yields no checkable obligations
 			}
 			obls = append(obls, o)
 		}
